@@ -9,7 +9,7 @@ table = subprocess.run(['python3', '/verif/tools/seeded_table.py'], capture_outp
 summary = table.stderr.strip().splitlines()[-1]
 text = '''### 12.7 Seeded changes (independent sub-agents, property text only) and which check catches which
 
-Six rounds, 240 changes (twelve per property), each written by a fresh sub-agent that was given only the
+Seven rounds, 260 changes (thirteen per property; round 7 asked for one change per property), each written by a fresh sub-agent that was given only the
 property's entry of `properties.jsonl` and its own scratch worktree of /repo (nothing from /verif), each
 confirmed by me (`git apply` on a clean checkout; the demo passes without and fails with the change; the
 477 tests still pass; `git checkout -- .`): `seeded/<id>/{patch.diff, demo.py, meta.json, result.json,
@@ -62,6 +62,14 @@ What each round found, on its FIRST run against the machinery as it stood, and w
   challenge/digest defaults with an environment binding; C16_11 (memoised enumeration) → enumeration after a schema
   change and nested-start enumeration (which found a genuine defect of `get_all_fields`, §12.5).
 
+* **Round 7 (`_13`; one change per property, aimed at easily overlooked corners - net/file/url fields, proxies of sibling
+  fields, XML converters, key files over sessions, argparse/enumeration helpers): 19/20.**  Miss: C19_13 (`Config.save`
+  remembers the bytes it wrote last and skips the write when the content is unchanged and the destination exists; the new
+  attribute puts `save` outside the verifier's subset → exit 2 *undecided*, and every history of the driver built a new
+  configuration object per save) → histories of ONE configuration object saved several times: to another destination that
+  already holds an older configuration, to the same destination after someone else overwrote / truncated / deleted /
+  replaced it, after edits.
+
 An *undecided* outcome (exit 2: a changed function left the verifier's subset and the bounded driver saw
 nothing) is counted as a miss.
 
@@ -72,10 +80,31 @@ nothing) is counted as a miss.
 `DictProxy.__init__/update/|=/copy` and `DictField._validate` (`list(d.items())`, `dict(pairs)`) · slice
 assignment and the inherited list/dict built-ins (C17) · `get_all_fields` and the argparse generator (C16) ·
 `generate_stub` / `get_method_annotation` (C20) · `Config._process_includes` and `BaseField._ref_path`
-(trusted today) · the net / file / url validators behind external parsers (C05, C01) · a deep (recursive)
+(trusted today) · a deep (recursive)
 inverse of the XML converters (C04) · end-to-end decryption across sessions as a lemma over `KeyFile` and
 `SecureField` (C03) · if-conversion (path merging) in the executor: `StringField._validate` explodes into 706
 paths, which is what makes the C01/C05/C11/C13 quick checks take 3–4 minutes.
+
+### 12.9 Session 3: the net / url / file validators brought under contract
+
+`IPv4AddressField`, `IPv4NetworkField`, `HostnameField`, `UrlField` and `FilenameField._validate` (inherited by `IncludeField`) were
+"bounded only" until session 3.  They are now verified bodies (`contracts/fields.py`: `register_net`, `register_hostname`,
+`register_url`, `register_filename`) against contracts written from the property text and the class documentation: the value stored is
+the StringField normal form passed through the external parser (canonical text for addresses and networks, the resolved address for
+`resolve=True`, the name resolved against `startdir` for file names), and a value is rejected - always with a `ValueError` - exactly when
+the inherited StringField constraints, the parser, or the class's own option (prefix bounds, `allow_ipv4`, DNS/NetBIOS shape, scheme,
+existence requirement) refuses it.  The parsers, the resolver and the file system are uninterpreted predicates (§12.4); the contracts do
+not restate `accepts_type` through a class-local definition, so the clauses of the `super()._validate` call keep meaning the StringField
+constraints.  One assumption had to be stated for `FilenameField`: `transform_strip` has its declared type (`None`, `bool` or `str`) -
+union-typed attributes are not assumed on read, and without it the solver chose the tuple allocated for the error message as the strip
+option (found as a spurious `sat`, corrected in the contract, not in the code).
+
+Probes on a scratch copy (`tools/mut.sh`, each must fail a named obligation and did): `<` → `<=` in the minimum prefix check; `is not None`
+→ truthiness for `max_prefix_len` (the pinned tree's original defect); `return value` instead of `str(net)`; parser error swallowed;
+`and` → `or` in the host-name shape test; `allow_ipv4` ignored; resolved name dropped; address not canonicalised; resolution failure
+swallowed; scheme test weakened; result lower-cased; `isdir` → `exists`; `exists is False` → falsiness; `startdir` applied to absolute
+names; `expanduser` dropped.  Two further probes (`max` compared with `min_prefix_len`, the `super()` call removed) leave the subset (a
+comparison of `int` with `None`, a parser applied to a value not known to be text) → exit 2, decided by the bounded driver only.
 
 '''
 s = s[:a] + text + s[b:]
